@@ -14,8 +14,8 @@ a necessary condition each - breaking it breaks the property for some message an
       value moves the prefix interval up).  The deciding test compares the emitted word with the top word of
       lower +w range under the same shift.
   S6  every admitted width.  The zero word narrows the prefix interval to 2^(k - W); only a distance of 1 to the end of the
-      final interval is guaranteed, so k - W <= 0, i.e. State <= 2 Words, is needed - a genuine defect of the pinned tree
-      for wider states (known finding F22).
+      final interval is guaranteed, so the number of zero words must grow with State::BITS / Word::BITS.  The pinned tree
+      emitted one zero word for every width - a genuine defect for wide states (F22, repaired in /repo e721871).
   S3  only appending.  seal() and encode_symbol touch the sink through WriteWords::write alone (a message can be started
       on a sink that already holds data, sealed messages can be stored back to back).
   S4  length independence of the reader.  RangeDecoder's window reader and decode_symbol use the source through
